@@ -154,6 +154,36 @@ def folder_table(ctx, prog, fpath, kind_adt):
     return f, bb, regs, tab
 
 
+def check_folder_never_undefined(ctx, prog, rule, tag=""):
+    """K10 / C12.M9: compile-time evaluation never *produces* an undefined value.  What an undefined value does when
+    it is printed, tested, iterated or looked into is decided by the environment's undefined behaviour at run time
+    (`handle_undefined`, `assert_value_not_undefined`, `is_true`, `try_iter`), none of which the folder can consult:
+    a fold that yields undefined (a missed key of a literal, `unwrap_or(Value::UNDEFINED)`) makes the literal behave
+    unlike the same lookup on a variable in every strict mode."""
+    roots = [AS_CONST] + [k for k in prog.fns if k.startswith("minijinja::compiler::ast::") and k.endswith("::as_const")
+                          and prog.fns[k].kind != "closure"]
+    n = 0
+    for r in sorted(set(roots)):
+        if not prog.has_fn(r):
+            continue
+        for f in [prog.fn(r)] + prog.closures_of(r):
+            n += 1
+            hits = []
+            for bb, o in query.all_operands(f):
+                c = o.get("c")
+                if c and str(c.get("named", "")).endswith("Value::UNDEFINED"):
+                    hits.append(f.tloc(bb))
+            for bb, i, s_ in f.all_stmts():
+                rv = s_.get("rv", {})
+                if rv.get("k") == "agg" and rv.get("variant") == "Undefined" and str(rv.get("adt", "")).endswith("ValueRepr"):
+                    hits.append(f.tloc(bb))
+            ctx.ob(rule, tag + f.path.replace("minijinja::compiler::ast::", ""), not hits,
+                   "constant folding produces an undefined value (%s): its effect depends on the undefined behaviour of the "
+                   "environment, which only the interpreter applies (handle_undefined / strict checks are skipped)" % ", ".join(map(str, hits[:3])),
+                   f.loc)
+    ctx.floor(rule.split(".")[0] + "." + rule.split(".")[1] + " folding functions scanned for undefined" + tag, n, 3)
+
+
 def run(ctx):
     ctx.explain("C04: sibling cross-check by switch-arm summaries: (BinOpKind/CompareOpKind -> operator function and "
                 "operand order) extracted from the constant folder is compared with (kind -> Instruction) from the "
@@ -419,6 +449,9 @@ def run(ctx):
                    "the constant operands: the folded expression yields another value than the same expression with "
                    "variables" % [repr(o) for o in os_], f.where(c.bb))
     ctx.floor("C04.K9 value constructions inside as_const", nfab, 1)
+
+    # ---- K10
+    check_folder_never_undefined(ctx, prog, "C04.K10.folding-never-yields-undefined")
 
     # ---- K5
     def ctor_family(f, region=None):
